@@ -14,6 +14,7 @@ Decided:
   R16.6  no call into the scheduling core relies on a defaulted scenario-index parameter
   R16.7  loops over all scenario indices are never left early
   R16.8  a scenario index is never tested for truthiness
+  R16.9  a scenario-specific override also holds for the scenarios nested below it that have none of their own
 Not decided: equality with single-scenario runs.
 """
 from __future__ import annotations
@@ -370,5 +371,23 @@ def run(ctx: Ctx):
     shared_container_census(ctx, "R16.5", parse_reach)
     scenario_default_rule(ctx, "R16.6")
     scenario_loop_and_index_rules(ctx)
+    # ---------------------------------------------------------------- R16.9 a scenario without an override equals its parent scenario
+    apa = repo.func("ModelBuilder._apply_property_attributes")
+    brs_ = [i for i in own_nodes(apa) if isinstance(i, ast.If) and norm(i.test).replace("'", '"') == 'key == "scenario_attr"']
+    if not brs_:
+        raise AnchorMissing("_apply_property_attributes: scenario_attr branch not found")
+    for b in brs_:
+        loops_ = [l for l in ast.walk(b) if isinstance(l, (ast.While, ast.For))]
+        down = [l for l in loops_ if any(isinstance(x, ast.Attribute) and x.attr == "children" for x in ast.walk(b))
+                and any(isinstance(x, ast.Assign) and isinstance(x.targets[0], ast.Subscript) and norm(x.targets[0].value) == "obj"
+                        and "attr_key" in norm(x.targets[0].slice) and "scenario_idx" not in [n_.id for n_ in ast.walk(x.targets[0].slice) if isinstance(n_, ast.Name)]
+                        for x in ast.walk(l))]
+        guarded = any("not in" in norm(i.test) for l in down for i in ast.walk(l) if isinstance(i, ast.If))
+        ok = bool(down) and guarded
+        ctx.ob("R16.9", f"{apa.qual}: 'id:attr' override reaches the scenarios nested below id", (apa, b), ok,
+               "the override is written for every descendant scenario that has none of its own" if ok else
+               "a scenario-specific override is stored for the named scenario only: a scenario nested below it is scheduled with the top-level "
+               "value instead of like its parent scenario",
+               key="R16.9|_apply_property_attributes|nested scenarios")
     ctx.floor("R16.2", 12)
     ctx.floor("R16.3", 8)
